@@ -95,6 +95,20 @@ def do_replay(prop, modname, idx, ob, outdir):
             script = rp(ob['model'], ob)
     except Exception as e:
         header += '# replay adapter failed: %r\n' % (e,)
+    battery = os.path.join(HERE, 'replay', 'battery_%s.py' % prop)
+    if script is None and os.path.exists(battery):
+        # no specific counter-example adapter: search a failing input with the property's replay battery on the real code
+        script = open(battery).read()
+        header += '# (no concrete input derivable from the counter-model: replay battery of %s)\n' % prop
+        with open(path, 'w') as f:
+            f.write(header + script)
+        try:
+            p = subprocess.run([REPLAY_PY, path], capture_output=True, text=True, timeout=300, cwd=contract.REPO,
+                               env=dict(os.environ, PYTHONPATH=contract.REPO))
+            out = (p.stdout + p.stderr)[-2000:]
+            return path, (p.returncode == 1 and 'REPRODUCED' in p.stdout), out
+        except Exception as e:
+            return path, None, repr(e)
     if script is None:
         with open(path, 'w') as f:
             f.write(header + '# no concrete input could be derived from the counter-model (no-failing-input-found)\n'
